@@ -1,6 +1,7 @@
 package rules
 
 import (
+	"fmt"
 	"sort"
 	"strings"
 
@@ -189,4 +190,56 @@ func runR176(c *core.Ctx) {
 			c.Check(len(bad) == 0, "R17.6", key, c.P.Pos(al.Pos()), "the hit carries the entry's data and flags", strings.Join(bad, "; "))
 		})
 	}
+}
+
+// runR177 (R17.7): one clock. The deadline stored with an entry and the test that decides whether it has passed read the
+// same time source, in the same unit: every time source called in the in-memory backend is the same function (today:
+// time.Now, reduced with Unix()). A check against another clock (a monotonic nanosecond counter, say) compares numbers
+// from two different epochs: nothing ever expires, or everything does.
+func runR177(c *core.Ctx) {
+	c.Rule("R17.7", "one clock: every time source read in the in-memory backend (when an expiry is computed and when it is tested) is the same function, reduced the same way", 1)
+	type use struct {
+		clock, reduce, pos, fn string
+	}
+	var uses []use
+	for _, fn := range pkgFuncs(c, "handlers/inmem") {
+		ssax.Instrs(fn, func(ins ssa.Instruction) {
+			call, ok := ins.(*ssa.Call)
+			if !ok {
+				return
+			}
+			name := ssax.CalleeName(&call.Call)
+			isClock := name == "time.Now" || strings.HasSuffix(name, "/timer.Now") || name == "time.Since" || strings.HasSuffix(name, "/timer.Since")
+			if !isClock {
+				return
+			}
+			red := "-"
+			if call.Referrers() != nil {
+				for _, r := range *call.Referrers() {
+					if rc := ssax.CallOf(r); rc != nil {
+						red = short(ssax.CalleeName(rc))
+					} else if bo, ok := r.(*ssa.BinOp); ok {
+						red = bo.Op.String()
+					}
+				}
+			}
+			uses = append(uses, use{short(name), red, c.P.Pos(call.Pos()), core.FuncName(fn)})
+		})
+	}
+	if len(uses) == 0 {
+		c.Undecided("R17.7", "inmem#one-clock", "-", "the in-memory backend reads no clock")
+		return
+	}
+	kinds := map[string][]string{}
+	for _, u := range uses {
+		k := u.clock + " reduced by " + u.reduce
+		kinds[k] = append(kinds[k], u.fn+" ("+u.pos+")")
+	}
+	var desc []string
+	for k, v := range kinds {
+		desc = append(desc, k+": "+strings.Join(v, ", "))
+	}
+	sort.Strings(desc)
+	c.Check(len(kinds) == 1, "R17.7", "inmem#one-clock", uses[0].pos, fmt.Sprintf("%d reads of one clock (%s)", len(uses), desc[0][:strings.Index(desc[0], ":")]),
+		"the in-memory backend reads more than one clock - "+strings.Join(desc, "; ")+": deadlines are computed on one time scale and tested on another, so expired entries keep being served (or live ones are dropped)")
 }
